@@ -263,9 +263,29 @@ func c08Case(w *core.Worker, i int) {
 	if fail == "cancel" {
 		ctx, cancel := context.WithCancel(context.Background())
 		var hits int64
-		target := int64(k)
-		if target > 12 {
-			target = int64(k % 12)
+		// where the statement is cancelled: the number of worker-hook hits of an undisturbed execution is counted in a
+		// scratch session first; first / second / middle / last-1 / last then name the hit at which the context is cancelled
+		total := int64(0)
+		{
+			d0 := core.FreshDir(w.Work, "dry")
+			core.WriteFiles(d0, files)
+			if s0, e0 := core.NewSess(core.SessOpts{Dir: d0, CPU: cpu, Quiet: true}); e0 == nil {
+				for _, q := range setup {
+					s0.Exec(q)
+				}
+				verifhook.SetCallback(func(point string, hit int64) {
+					if strings.HasPrefix(point, "worker.") {
+						atomic.AddInt64(&total, 1)
+					}
+				})
+				s0.Exec(sql)
+				verifhook.SetCallback(nil)
+				s0.Close()
+			}
+		}
+		target := map[string]int64{"first": 0, "second": 1, "middle": total / 2, "last-1": total - 2, "last": total - 1}[kname]
+		if target < 0 {
+			target = 0
 		}
 		verifhook.SetCallback(func(point string, hit int64) {
 			if strings.HasPrefix(point, "worker.") && atomic.AddInt64(&hits, 1) == target+1 {
